@@ -446,6 +446,18 @@ inductive Op
   | ref (x y : Nat)
 deriving Repr
 
+def Place.isRoot : Place → Bool
+  | .var _ => true
+  | .prop _ _ => true
+  | .idx _ _ => false
+
+/-- the statement writes the array a name holds, not an array nested inside it -/
+def Op.flat : Op → Bool
+  | .setIdx b _ _ => b.isRoot
+  | .unset b _ => b.isRoot
+  | .meth b _ => b.isRoot
+  | _ => true
+
 /-- number of declared properties of the one class `O` -/
 def np : Nat := 2
 
